@@ -41,6 +41,21 @@ def largest_power(b, bits):
     return p
 
 
+def delegating_returns(f):
+    """`return <other formatter>(v, str, len, ...)`: the callee (analysed itself) discharges termination / count"""
+    names = [n_ for n_, _ in FORMATTERS if n_ != f.name]
+    buf, cap = f.params[1]["name"], f.params[2]["name"]
+    out = []
+    for r in f.nodes.values():
+        if r.k == "ReturnStmt" and r.ch:
+            c = r.child(0).strip_all_casts()
+            if c.k == "CallExpr" and c.get("callee") in names:
+                a = C.call_args(c)
+                if len(a) >= 3 and a[1].strip_all_casts().get("path") == buf and a[2].strip_all_casts().get("path") == cap:
+                    out.append(r)
+    return out
+
+
 def rule_b1(ck, prog):
     for name, bits in FORMATTERS:
         BR.check_function(ck, prog, "C14-B1", name, min_sites=3, only=lambda s: s.kind in ("store", "call"))
@@ -71,7 +86,9 @@ def rule_b1(ck, prog):
             okg = c.k == "BinaryOperator" and c.get("op") == "<" and c.child(0).strip_all_casts().get("path") == idx and \
                 c.child(1).strip_all_casts().get("path") == cap
         # the guard block lies on every path to the exit
-        on_all = guard is not None and pg.exit not in pg.reachable([pg.entry], blocked_point=lambda p: p == (guard.id, 0))
+        dele = delegating_returns(f)
+        on_all = guard is not None and pg.exit not in pg.reachable([pg.entry], blocked_point=lambda p: p == (guard.id, 0),
+                                                                 blocked_edge=lambda e: e.kind == "elem" and e.node in dele)
         if okg and on_all:
             ck.holds("C14-B1", st, K.loc(f, n), "`%s[%s] = 0` under %s < %s on every path" % (buf, idx, idx, cap))
         else:
@@ -100,7 +117,8 @@ def rule_b2(ck, prog):
             else:
                 ck.violated("C14-B2", st, K.loc(f, n), "character stored at `%s`, not at the post-incremented running position" % idx.src)
         st = K.site(f, "returns-position", 0)
-        rets = [n for n in f.nodes.values() if n.k == "ReturnStmt" and n.ch]
+        dele = delegating_returns(f)
+        rets = [n for n in f.nodes.values() if n.k == "ReturnStmt" and n.ch and n not in dele]
         if len(posvars) == 1 and rets and all(r.child(0).strip_all_casts().get("path") in posvars for r in rets):
             ck.holds("C14-B2", st, K.loc(f, rets[0]), "returns the running position")
         else:
@@ -152,7 +170,7 @@ def rule_t1_u2(ck, prog):
         table, norm = {}, {}
         for radix in (2, 8, 10, 16, 7):
             firsts, bases = set(), set()
-            for ps in P.summarize(f, max_visits=1, params={base: radix, f.params[0]["name"]: 5}):
+            for ps in P.summarize(f, max_visits=1, params={base: radix}):
                 fx, lastb = None, None
                 for ev in ps.events:
                     if ev[0] == "store":
@@ -224,7 +242,27 @@ def rule_t1_u2(ck, prog):
                and n.child(1).strip_all_casts().get("op") == "-"]
         uns_ok = bool(neg) and all(n.child(1).strip_all_casts().get("signed") is False and
                                    (n.child(1).strip_all_casts().get("bits") or 0) >= bits for n in neg)
-        if have == {"sign", "negative", "base10"} and uns_ok:
+        # 'any other base meaning 10': with an unsupported radix the sign must still be reachable, i.e. the radix test
+        # of the sign guard sees the normalised radix
+        reach7 = False
+        for ps in P.summarize(f, max_visits=1, params={base: 7, sgn: 1}):
+            if any(ev[0] == "store" and ev[1] is minus[0] for ev in ps.events):
+                reach7 = True
+                break
+        # a 64-bit value is never handed to a narrower formatter together with the sign flag
+        narrow = [c for c in f.calls() if c.get("callee") in [n_ for n_, b_ in FORMATTERS if b_ < bits]
+                  and len(C.call_args(c)) >= 5 and C.const_of(C.call_args(c)[4]) != 0]
+        if narrow:
+            ck.violated("C14-U2", K.site(f, "no-signed-delegation", 0), K.loc(f, narrow[0]),
+                        "%s hands its value to %s together with the sign flag: a positive %d-bit value whose bit 31 is set "
+                        "is printed as a negative number" % (name, narrow[0]["callee"], bits))
+        elif bits == 64:
+            ck.holds("C14-U2", K.site(f, "no-signed-delegation", 0), K.loc(f), "no delegation to a narrower signed formatter", nontrivial=False)
+        if have == {"sign", "negative", "base10"} and uns_ok and not reach7:
+            ck.violated("C14-U2", st, K.loc(f, minus[0]),
+                        "with a radix other than 2/8/10/16 (which means 10) no path reaches the '-' store: the sign guard tests the "
+                        "radix before it is normalised, negative signed values are printed as huge unsigned numbers")
+        elif have == {"sign", "negative", "base10"} and uns_ok:
             ck.holds("C14-U2", st, K.loc(f, minus[0]), "'-' under sign && (int%d_t)val < 0 && base == 10; magnitude = -val in uint%d_t" % (bits, bits))
         else:
             ck.violated("C14-U2", st, K.loc(f, minus[0]),
